@@ -40,6 +40,19 @@ CHECKS.update({
          "All 256 stuck-at streams and 200+ short-cycle streams (seeded and adversarial period contents) through the real periodic workflows, a rotating subset (all in thorough) through the 10^6-bit workflows, SingleDetect on all-zero/all-one at every length 16..4096: must return, reject, and carry an error; panics in worker goroutines are attributed by the child-process protocol.", WF, "4/C14"),
 })
 
+CHECKS.update({
+ "C11": ("exploration", "runtime monitor: reference-model oracle + consumption monitor on the reader",
+         "SingleDetect on every length 0..4096 x four content families plus m-discriminating contents (found by bias scanning and by construction) around the 320-bit and 10240-bit switches; oracle = reference poker with the length-appropriate m; the recording reader checks that exactly numByte bytes are consumed, also under short reads.", REF, "4/C11"),
+ "C15": ("exploration", "runtime monitor: differential comparison of entry points (bit-identical)",
+         "On each generated byte string every byte-level entry point is compared bit for bit with the bit-level one on the harness's own MSB-first expansion, every registry runner with the standard's default, Round15/Round12 with the runners, the file loader with the expansion; registry order is identified on inputs where all fifteen defaults differ.", "Trusted base: the harness's MSB-first expansion; Go float64 equality. No reference statistics involved.", "4/C15"),
+ "C16": ("exploration", "runtime monitor: invariant predicates on every result",
+         "Range/finite/P-Q-relation/Pass predicates evaluated on every result of every test and registry runner over 26 extreme families x lengths 100..10^6 bits (10^7 thorough); panics are violations.", "Predicates only; trusted base is the Go runtime.", "4/C16"),
+ "C17": ("exploration", "runtime monitor: metamorphic relations",
+         "Complement, reversal, rotation, block permutation and tail rewriting applied to generated sequences; the library's result on the transformed input must match its result on the original within 1e-8 (with the stated Q/variant swaps).", "Metamorphic: the library is compared with itself; trusted base is the transformation code in the harness.", "4/C17"),
+ "C18": ("exploration", "runtime monitor: input snapshots, solo-vs-concurrent differential, Go race detector",
+         "Input (and canary-filled spare capacity) snapshots around every call, repeat-call equality, 2/8/64 goroutines on shared and private buffers compared with solo results, and the same mixes in a -race build with DATA RACE reports counted.", "Trusted base: Go race detector (reports races of observed executions only).", "4/C18"),
+})
+
 PENDING = {
 }
 
